@@ -45,6 +45,8 @@ def dec(x, provider=None):
         return naive.replace(tzinfo=zoneinfo.ZoneInfo(x["tz"]), fold=x.get("fold", 0))
     if k == "fixed":      # a tzinfo without any zone id: datetime.timezone fixed offset (minutes)
         return datetime(*x["v"], tzinfo=timezone(timedelta(minutes=x["off"])))
+    if k == "pfixed":     # pytz.FixedOffset: an aware value whose tzinfo has neither a zone id nor a name
+        return datetime(*x["v"], tzinfo=pytz.FixedOffset(x["off"]))
     if k == "td":
         return timedelta(days=x["d"], seconds=x["s"])
     raise ValueError(k)
